@@ -639,7 +639,10 @@ class Machine(object):
             if base == "badarg":
                 bad = [u"text \u00e9", u"a" * 9000, 5, None][op[2]]
                 try:
-                    o.update(bad)
+                    if fam.startswith("TupleHash") and op[2] & 1:
+                        o.update(b"a good item", bad)       # several items in one call: all of them or none
+                    else:
+                        o.update(bad)
                 except Exception:
                     ctx.fault("call.bad_argument")
                     self._after_badarg = True
